@@ -485,7 +485,12 @@ pub fn shrink(prop: &dyn Property, case: &Case, fail: &Fail) -> (Case, Fail, usi
         while i < cur.sc.handlers.len() {
             let mut c = cur.clone();
             c.sc.handlers.remove(i);
-            if c.sels.len() == cur.sc.handlers.len() {
+            // selector ASTs accompany the selector-bearing handlers, in order of appearance
+            let with_sel = cur.sc.handlers.iter().filter(|h| h.selector().is_some()).count();
+            if cur.sc.handlers[i].selector().is_some() && c.sels.len() == with_sel {
+                let k = cur.sc.handlers[..i].iter().filter(|h| h.selector().is_some()).count();
+                c.sels.remove(k);
+            } else if c.sels.len() == cur.sc.handlers.len() {
                 c.sels.remove(i);
             }
             c.sc.joins.retain(|&j| j != i);
@@ -854,7 +859,24 @@ pub fn run_check(prop: &dyn Property, tier: Tier) -> i32 {
             n_violations -= items.len() as i64;
             stats.add("noise.non_reproducing_timing_failures", items.len() as u64);
         } else {
-            harness_errors.push(format!("non-reproducing failure of {clause}: replay {}", path.display()));
+            // Observed during exploration (the oracle judged real output of the system under
+            // test), yet not a single isolated evaluation of the same case fails. The simulator
+            // itself is deterministic and keeps no state between cases (selftest/determinism.sh
+            // compares digests under 16, 7 and 1 workers, i.e. under different orders of the
+            // cases inside one process), so the outcome depended on process-wide state of the
+            // system under test left behind by earlier cases. The replay file is the original
+            // case; it documents the input, it cannot reproduce the history of the process.
+            let rf2 = ReplayFile { case: case.clone(), detail: fail.detail.clone(), repeat: 400, ..rf.clone() };
+            let path2 = write_replay(&rf2, "min");
+            println!(
+                "VIOLATION property={id} replay={} clause={clause} unlisted_classifier={:?} occurrences={} shrink_steps={steps} detail={} [observed {} time(s) during exploration but 0 of 80 isolated evaluations of the case fail: the outcome depends on process state outside the case]",
+                path2.display(),
+                kn,
+                items.len(),
+                truncate(&fail.detail, 400),
+                items.len()
+            );
+            exit = 1;
         }
     }
     for f in &known {
